@@ -750,6 +750,9 @@ func (r *Replica) Restore(ctx context.Context, opt RestoreOptions) (err error) {
 	defer func() { _ = f.Close() }()
 
 	pr, pw := io.Pipe()
+	// If decoding stops early (damaged input), the compactor goroutine must not
+	// stay blocked on the pipe for the life of the process.
+	defer func() { _ = pr.Close() }()
 
 	go func() {
 		// The ltx decoder slices into what it could read; a truncated input
